@@ -143,7 +143,7 @@ claim('C19', 'bounded symbolic execution of the real descriptors and __eq__/__ne
 
 claim('C18', 'bounded symbolic execution over call histories: menu operations with symbolic values on several live trees through the real object model, reader and writer; aliasing by object-graph identity, value leaks decided by z3',
       'After a set-up with one constructed tree and two trees parsed by one shared DiffXDOMReader (plus one shared '
-      'DiffXDOMWriter), every sequence of 2 (quick) / 3 (thorough) operations from a 16-entry menu is executed with '
+      'DiffXDOMWriter), every sequence of 2 (quick) / 3 (thorough) operations from a 17-entry menu is executed with '
       'symbolic values: mutable objects reachable from distinct trees, class-level defaults and the shared reader/writer '
       'are pairwise disjoint; no other tree\'s snapshot can change (z3); to_bytes / == / repr leave the tree unchanged and '
       'to_bytes is repeatable.',
